@@ -24,7 +24,7 @@ pub fn record_key(fam: FamId, pairs: &[(Vec<u8>, Vec<u8>)]) -> Option<(Scheme, V
 /// keccak256 of the uncompressed form of the key, per family
 pub fn node_id_for(fam: FamId, scheme: Scheme, pk: &[u8]) -> Option<[u8; 32]> {
     if fam.is_toy() {
-        return if pk.len() == 4 || (64..=130).contains(&pk.len()) || (pk.len() == 1 && pk[0] < 0x80) { Some(crate::refmodel::keccak::keccak256(pk)) } else { None };
+        return if pk.len() == 4 || pk.len() == 5 || (64..=130).contains(&pk.len()) || (pk.len() == 1 && pk[0] < 0x80) { Some(crate::refmodel::keccak::keccak256(pk)) } else { None };
     }
     node_id_of(scheme, pk)
 }
